@@ -243,12 +243,40 @@ def inline_bytes_idiom(body):
         if not ok or how != "call":
             return False
         approved.add(site)
+    def has_len(e):
+        """the length field occurs in e other than as the cut of an inline array"""
+        if not isinstance(e, tuple) or not e:
+            return False
+        if isinstance(e[0], str):
+            if e[0] == "vfield" and len(e) > 3 and e[2] == "Bytes" and e[3] == "1":
+                return True
+            if e[0] == "call" and e[1].split("::")[-1] in ("index", "index_mut") and len(e) > 2 and e[2] and is_inline_array(e[2][0]):
+                return False
+            if e[0] == "slice" and len(e) > 2 and is_inline_array(e[1]):
+                return False        # the result of such a cut (its shape is checked where it is made)
+        return any(has_len(x) for x in e if isinstance(x, tuple))
     for site, kind, s in body.sites():
+        # the length field is used for that cut and for nothing else (`Bytes(_, 0) => ..` treats an empty inline value differently
+        # from an empty heap value)
+        if kind == "term" and s["k"] == "switch":
+            try:
+                if has_len(body.expr_operand(s["op"], site)):
+                    return False
+            except Exception:
+                return False
+        if kind == "stmt" and s["k"] == "assign" and s["rv"]["k"] in ("binop", "unop", "cast"):
+            try:
+                if has_len(body.expr_rvalue(s["rv"], site)):
+                    return False
+            except Exception:
+                return False
         if kind == "term" and s["k"] == "call":
             if site in approved:
                 continue
             for a in body.call_args(s, site):
                 if is_inline_array(deref_addr(body, a)) or is_inline_array(a):
+                    return False
+                if has_len(a) or has_len(deref_addr(body, a)):
                     return False
         elif kind == "stmt" and s["k"] == "assign":
             rv = s["rv"]
@@ -354,6 +382,18 @@ def hx3(F, R):
             R.bad("HX3", "HX3/Hex::bytes/inline-view-not-cut-at-len", b.where(site),
                   "bytes() of an inline Hex is not array[..len]: padding is exposed or bytes are lost",
                   {"access": "%s[%s]" % (show(base, b), show(idx, b))})
+    # bytes() and len() are total on every value of the type: both variants are public, so a heap form of 8 bytes or fewer is a legal
+    # value.  The only assertion that changes nothing is "length field <= 8" of the inline form: the slicing that follows panics
+    # on exactly the other values.
+    for fn in (b, ln):
+        for f, bi in fn.compiled_assertions():
+            if f[0] == "bool" and strip_load(f[1])[0] == "ovf":
+                continue
+            if f[0] == "in" and f[2] <= frozenset(range(0, HEX_SIZE + 1)) and frozenset(range(0, HEX_SIZE + 1)) <= f[2] and is_inline_len(f[1], ("param", 1)):
+                continue
+            R.bad("HX3", "HX3/Hex::%s/may-panic" % fn.name, fn.where((bi, 0)),
+                  "%s() asserts %s: it panics on a legal value of the type (e.g. a hand-built heap form of 8 bytes or fewer), and with it "
+                  "every accessor built on it" % (fn.name, show(f, fn)[:140]))
     # whole array as a slice anywhere in bytes()
     for site, kind, s in b.sites():
         if kind == "stmt" and s["k"] == "assign" and s["rv"]["k"] == "cast" and "Unsize" in s["rv"]["kind"]:
